@@ -8,19 +8,14 @@ declare -A REL=( [C01]="C01 C02 C05 C03" [C02]="C02 C05 C01 C03" [C03]="C03 C12 
  [C07]="C07 C01 C04" [C08]="C08 C03 C13" [C09]="C09 C10 C17" [C10]="C10 C09 C11 C01" [C11]="C11 C10 C04" [C12]="C12 C03" [C13]="C13 C03 C08"
  [C14]="C14 C03" [C15]="C15 C07" [C16]="C16 C17 C10" [C17]="C17 C16 C09" [C18]="C18 C16" [C19]="C19 C10 C11" )
 F="${1:-}"
-OUT=seeded/RESULTS.md
-{ echo "# Seeded changes (written by independent sub-agents from the property text alone) vs. the quick checks"; echo
-  echo "Run $(date -u +%Y-%m-%dT%H:%MZ), quick tier, seed ${VERIF_SEED:-1}.  'own' = the check of the property the change was written against."; echo
-  echo "| seeded change | what it needs to manifest | own check | other checks that fire | silent |"; echo "|---|---|---|---|---|"; } > $OUT.tmp
 for d in seeded/C*$F*/; do
   n=$(basename $d); prop=${n%%-*}
   res=$(tools/seedrun.sh $d/patch.diff ${REL[$prop]} 2>&1)
   echo "$res" > $d/detected.txt
   own=$(echo "$res" | awk -v p=$prop '$1==p{print $2}')
   fired=$(echo "$res" | awk -v p=$prop '$1!=p && $2=="exit=1"{printf "%s ",$1}'); silent=$(echo "$res" | awk '$2=="exit=0"{printf "%s ",$1}')
-  needs=$(python3 -c "import json,sys;print(json.load(open('$d/meta.json')).get('needs','')[:160].replace('|','/').replace('\n',' '))")
   case "$own" in exit=1) o="FIRES";; exit=0) o="silent";; *) o="$own";; esac
-  echo "| $n | $needs | $o | $fired | $silent |" >> $OUT.tmp
   echo "$n own=$o others=[$fired] silent=[$silent]"
 done
-mv $OUT.tmp $OUT
+python3 tools/seed_meta.py
+python3 tools/seed_results.py
